@@ -12,8 +12,10 @@ import Pyc.Model.Output
 * `min_lovelace_post_alonzo` is pure (repaired tree): `minLovelace` of `Pyc/Model/Output.lean`.
 * `address.address_type.name.startswith("SCRIPT")` is read off the header byte of `Address.to_primitive()`
   (types 1, 3, 5, 7 = SCRIPT_KEY, SCRIPT_SCRIPT, SCRIPT_POINTER, SCRIPT_NONE).
-* `max_collateral_inputs` is a field of `Params` only so that the property can be stated: the code never reads it.
-* Exceptions are `Except Err` (all three are `ValueError` in Python). -/
+* `candidate not in self.collaterals` is Python list membership: `x == candidate` for the elements `x`, i.e. the
+  dataclass equality of `UTxO` (`TransactionInput` and `TransactionOutput` field by field, amounts by `Value.__eq__`):
+  `Utxo.same`.  Two UTxO *objects* that share a reference but differ in their output are different for this test.
+* Exceptions are `Except Err` (all four are `ValueError` in Python). -/
 
 namespace Pyc.Collateral
 
@@ -28,7 +30,17 @@ namespace Utxo
 def ref (u : Utxo) : Bytes × Nat := (u.txid, u.ix)
 /-- `utxo.output.amount` -/
 def amount (u : Utxo) : Value := u.out.amount
+/-- `TransactionOutput.__eq__` (dataclass equality; the amount by `Value.__eq__`; datum and script objects by the
+bytes they serialize to) -/
+def sameOut (a b : Output) : Bool :=
+  a.addr == b.addr && Value.eq a.amount b.amount && a.datumHash == b.datumHash && a.datum == b.datum &&
+    a.script == b.script && a.postAlonzo == b.postAlonzo
+/-- `UTxO.__eq__` -/
+def same (a b : Utxo) : Bool := a.txid == b.txid && a.ix == b.ix && sameOut a.out b.out
 end Utxo
+
+/-- `candidate in self.collaterals` -/
+def isIn (c : Utxo) (l : List Utxo) : Bool := l.any (fun x => Utxo.same x c)
 
 /-- `address.address_type.name.startswith("SCRIPT")` from the header byte of the serialized address -/
 def scriptLocked (addr : Bytes) : Bool :=
@@ -44,7 +56,7 @@ structure Params where
   percent : Int
   /-- `protocol_param.coins_per_utxo_byte` -/
   cpb : Int
-  /-- `protocol_param.max_collateral_inputs` — never read by the code -/
+  /-- `protocol_param.max_collateral_inputs` -/
   maxCollateralInputs : Nat
   deriving Repr, Inhabited
 
@@ -70,6 +82,7 @@ structure State where
 
 inductive Err
   | refScriptSize     -- `max_tx_fee` raised (reference scripts larger than the protocol maximum)
+  | tooMany           -- "Number of collateral inputs ... exceeds the protocol limit"
   | insufficient      -- "Minimum collateral amount ... is greater than total provided collateral inputs"
   | returnBelowMin    -- "Minimum lovelace amount for collateral return ... is greater than collateral change"
   deriving Repr, DecidableEq, Inhabited
@@ -97,7 +110,7 @@ def needMore (cpb amt thr : Int) (addr : Bytes) (total ret : Value) : Bool :=
   decide (total.coin < amt) ||
     (shouldAdd thr ret && (decide (0 ≤ ret.coin) && decide (ret.coin < minLovelace cpb (retOutput addr ret))))
 
-/-- the filter inside the loop: not at a script address and more than 2 ADA -/
+/-- the address / amount part of the filter inside the loop: not at a script address and more than 2 ADA -/
 def eligible (c : Utxo) : Bool := !scriptLocked c.out.addr && decide (c.out.amount.coin > 2000000)
 
 /-- `_add_collateral_input(cur_total, candidate_inputs)`: `cands` in pop order; returns the running total (the
@@ -106,7 +119,7 @@ def walk (cpb amt thr : Int) (addr : Bytes) : List Utxo → Value → Value → 
   | [], total, _, chosen => (total, chosen)
   | c :: rest, total, ret, chosen =>
     if needMore cpb amt thr addr total ret then
-      if eligible c then
+      if eligible c && !isIn c chosen then
         let total' := Value.add total c.out.amount
         walk cpb amt thr addr rest total' (subInt total' amt) (chosen ++ [c])
       else walk cpb amt thr addr rest total ret chosen
@@ -141,20 +154,22 @@ def selectAuto (cpb amt thr : Int) (addr : Bytes) (st : State) : List Utxo :=
 def sumAmounts (l : List Utxo) : Value := l.foldl (fun acc u => Value.add acc u.out.amount) ⟨0, []⟩
 
 /-- the tail of `_set_collateral_return` after the collateral inputs are fixed -/
-def finish (cpb amt thr : Int) (addr : Bytes) (cols : List Utxo) : Except Err Result :=
+def finish (cpb amt thr : Int) (maxInputs : Nat) (addr : Bytes) (cols : List Utxo) : Except Err Result :=
   let totalInput := sumAmounts cols
-  if amt > totalInput.coin then .error .insufficient
+  if cols.length > maxInputs then .error .tooMany
+  else if amt > totalInput.coin then .error .insufficient
   else
     let ret := subInt totalInput amt
     if !shouldAdd thr ret then .ok ⟨cols, none, none⟩
     else if minLovelace cpb (retOutput addr ret) > ret.coin then .error .returnBelowMin
     else .ok ⟨cols, some (retOutput addr (subInt totalInput amt)), some amt⟩
 
-/-- `max_tx_fee(...) * collateral_percent // 100` (`Int` `/` is floor division for the positive divisor 100) -/
+/-- `(max_tx_fee(...) * collateral_percent + 99) // 100` (`Int` `/` is floor division for the positive divisor 100):
+the ceiling of `max_tx_fee * percent / 100` -/
 def collateralAmount (p : Params) (refScriptSize : Int) : Option Int :=
   match maxTxFee p.fee refScriptSize with
   | none => none
-  | some mf => some (mf * p.percent / 100)
+  | some mf => some ((mf * p.percent + 99) / 100)
 
 /-- `_set_collateral_return` -/
 def run (p : Params) (st : State) : Except Err Result :=
@@ -167,7 +182,7 @@ def run (p : Params) (st : State) : Except Err Result :=
       | none => .error .refScriptSize
       | some amt =>
         let cols := if st.explicit.isEmpty then selectAuto p.cpb amt st.threshold addr st else st.explicit
-        finish p.cpb amt st.threshold addr cols
+        finish p.cpb amt st.threshold p.maxCollateralInputs addr cols
 
 /-- `NonEmptyOrderedSet([c.input for c in self.collaterals])` in `_build_tx_body`: first occurrences, in order -/
 def dedupRef : List Utxo → List (Bytes × Nat) → List Utxo
